@@ -273,3 +273,25 @@ def _make_table_getitem(variant, key_sort):
 
 _make_table_getitem('rows-slice', 'slice')
 _make_table_getitem('rows-mask', 'alt:boolvec|list_bool')
+
+
+# ------------------------------------------------------------------ C02 row views
+def _make_row_access(variant):
+    class spec:
+        """C02: the i-th row obtained by indexing equals the tuple of the i-th values of the
+        columns, in column order (and has one entry per column)."""
+        params = {'self': 'alt:table1|table2|table3', 'key': 'int'}
+
+        def requires(self, key):
+            return S.rect(self) and 0 <= key < self._length and \
+                all(c._dtype is not None and S.valid_dtype(c._dtype) for c in self._underlying)
+
+        def ensures(self, key, result):
+            return len(result) == len(self._underlying) and \
+                tuple(result._underlying) == tuple(c._underlying[key] for c in self._underlying) and \
+                tuple(result[j] for j in range(len(self._underlying))) == tuple(c._underlying[key] for c in self._underlying)
+    spec.__name__ = 'table_getitem_' + variant
+    contract('serif.table.Table.__getitem__', props=['C02'], variant=variant)(spec)
+
+
+_make_row_access('row-int')
